@@ -1114,7 +1114,14 @@ func (fr *Frame) step(st *State, in ssa.Instruction) {
 		}
 		fr.defers = append(fr.defers, deferred{fn: fv, args: args, call: &x.Call})
 	case *ssa.Go:
-		st.events = append(st.events, "go "+x.Call.Value.Name())
+		gname := x.Call.Value.Name()
+		switch cv := x.Call.Value.(type) {
+		case *ssa.MakeClosure:
+			gname = cv.Fn.Name()
+		case *ssa.Function:
+			gname = cv.Name()
+		}
+		st.events = append(st.events, "go "+gname)
 		fr.v.note("goroutine body not executed in spawner: " + fr.fn.String())
 	case *ssa.Send:
 		ch, ok := fr.get(st, x.Chan).(Chan)
